@@ -300,6 +300,7 @@ func (r *Relayer) Receive(f *Frame, fType frameType) (sent bool, failureReason s
 
 	// Stop the timeout if the call if finished.
 	item, stopped, ok := items.Get(id, finished /* stopTimeout */)
+	verifPoint("relay.Receive.afterGet", id)
 	if !ok {
 		r.logger.WithFields(
 			LogField{"id", id},
@@ -545,6 +546,7 @@ func (r *Relayer) handleNonCallReq(f *Frame) (shouldRelease bool, _ error) {
 
 	// Stop the timeout if the call if finished.
 	item, stopped, ok := items.Get(f.Header.ID, finished /* stopTimeout */)
+	verifPoint("relay.nonCallReq.afterGet", f.Header.ID)
 	if !ok {
 		return _relayShouldRelease, errUnknownID
 	}
@@ -619,6 +621,7 @@ func (r *Relayer) timeoutRelayItem(items *relayItems, id uint32, isOriginator bo
 	if !ok {
 		return
 	}
+	verifPoint("relay.timeout.afterEntomb", id)
 	if isOriginator {
 		r.conn.SendSystemError(id, item.span, ErrTimeout)
 		item.call.Failed("timeout")
